@@ -73,7 +73,55 @@ func c06(r *Report) {
 	r.ConstTable(TableSpec{ID: "C06.algs", Pkg: dag, Var: "allowedAlgos", Allowed: []string{"ES256", "ES384", "ES512", "PS256", "PS384", "PS512"}, Forbidden: []string{"none", "HS256", "HS384", "HS512"}, Min: 1})
 	r.Gate(Gate{ID: "C06.step.payload", Fn: p.Func(dag, "", "parsePayload"), Effect: SuccessReturn(), Check: ErrCheck(Fn("crypto/hash", "", "ParseHex"))})
 	r.Gate(Gate{ID: "C06.step.contenttype", Fn: p.Func(dag, "", "parseContentType"), Effect: SuccessReturn(), Check: CallCheck(Fn(dag, "", "ValidatePayloadType"), -1, IsTrue)})
+	// one signed transaction has one byte representation (its reference is the hash of the bytes): canonical compact form only
+	r.Gate(Gate{ID: "C06.parse.canonical-compact", Fn: parse, Effect: SuccessReturn(), Check: ErrCheck(Fn(dag, "", "assertCompactSerialization"))})
+	r.ArgIs("C06.parse.canonical-compact.of-the-input", parse, Fn(dag, "", "assertCompactSerialization"), 0, ParamV("input"), 1)
+	acs := p.Func(dag, "", "assertCompactSerialization")
+	r.Gate(Gate{ID: "C06.parse.canonical-compact.three-segments", Fn: acs, Effect: SuccessReturn(), Check: CmpCheck("len(segments) == 3", token.EQL, LenV(CallV(Fn("std:bytes", "", "Split"), -1)), IntV(3), true)})
+	r.Gate(Gate{ID: "C06.parse.canonical-compact.segment-decodes", Fn: acs, Effect: SuccessReturn(), ForEach: true, Check: ErrCheck(Fn("std:encoding/base64", "Encoding", "DecodeString"))})
+	r.Gate(Gate{ID: "C06.parse.canonical-compact.segment-re-encodes-to-itself", Fn: acs, Effect: SuccessReturn(), ForEach: true,
+		Check: CmpCheck("EncodeToString(decoded) == segment", token.EQL, CallV(Fn("std:encoding/base64", "Encoding", "EncodeToString"), -1), AnyV(), true)})
+	// the Lamport clock header is an unsigned 32 bit integer (a fractional, negative or oversized number converts to something else)
+	plc := p.Func(dag, "", "parseLamportClock")
+	lcStore := InstrEffect("transaction.lamportClock = uint32(lc)", func(in ssa.Instruction) bool {
+		st, ok := in.(*ssa.Store)
+		return ok && FieldV("transaction", "lamportClock").M(&ssa.UnOp{Op: token.MUL, X: st.Addr})
+	})
+	lcV := VPat{Desc: "the lc header as float64", M: func(v ssa.Value) bool {
+		ex, ok := v.(*ssa.Extract)
+		if !ok || ex.Index != 0 {
+			return false
+		}
+		ta, isTA := ex.Tuple.(*ssa.TypeAssert)
+		return isTA && ta.AssertedType.String() == "float64"
+	}}
+	r.Gate(Gate{ID: "C06.step.lc-not-negative", Fn: plc, Effect: lcStore, Check: CmpCheck("lc < 0 is false", token.LSS, lcV, AnyV(), false)})
+	r.Gate(Gate{ID: "C06.step.lc-fits-32-bits", Fn: plc, Effect: lcStore, Check: CmpCheck("lc > MaxUint32 is false", token.LSS, AnyV(), lcV, false)})
+	r.Gate(Gate{ID: "C06.step.lc-is-integral", Fn: plc, Effect: lcStore, Check: CmpCheck("lc == math.Trunc(lc)", token.EQL, lcV, CallV(Fn("std:math", "", "Trunc"), -1), true)})
 	sp := p.Func(dag, "", "parseSignatureParams")
+	// an embedded key is a PUBLIC key (a private key in the jwk header would be replicated to every node)
+	keyStore := InstrEffect("transaction.signingKey = jwk", func(in ssa.Instruction) bool {
+		st, ok := in.(*ssa.Store)
+		return ok && FieldV("transaction", "signingKey").M(&ssa.UnOp{Op: token.MUL, X: st.Addr})
+	})
+	pubOK := func(typ string) Check {
+		return Check{Desc: "jwk.(" + typ + ") ok", Pass: IsTrue, Values: func(fn *ssa.Function) []ssa.Value {
+			var out []ssa.Value
+			for _, b := range fn.Blocks {
+				for _, in := range b.Instrs {
+					if ta, isTA := in.(*ssa.TypeAssert); isTA && ta.CommaOk && strings.HasSuffix(ta.AssertedType.String(), "jwk."+typ) {
+						for _, ref := range *ta.Referrers() {
+							if ex, isEx := ref.(*ssa.Extract); isEx && ex.Index == 1 {
+								out = append(out, ex)
+							}
+						}
+					}
+				}
+			}
+			return out
+		}}
+	}
+	r.Gate(Gate{ID: "C06.step.embedded-key-is-public", Fn: sp, Effect: keyStore, Check: pubOK("ECDSAPublicKey"), Alt: []Check{pubOK("RSAPublicKey"), pubOK("OKPPublicKey")}})
 	// kid xor jwk: a branch on which kid != "" refuses, and a branch on which kid == "" refuses (both / neither)
 	r.Refuse(Refuse{ID: "C06.step.kid-xor-jwk.both", Fn: sp, Exists: true, Cond: CmpCheck("signingKeyID != \"\" (jwk present)", token.EQL, FieldV("transaction", "signingKeyID"), StrV(""), false)})
 	r.Refuse(Refuse{ID: "C06.step.kid-xor-jwk.neither", Fn: sp, Exists: true, Cond: CmpCheck("signingKeyID == \"\" (jwk absent)", token.EQL, FieldV("transaction", "signingKeyID"), StrV(""), true)})
